@@ -264,3 +264,58 @@ pub fn op_flip(d: &[u8], bits: &[usize]) -> String {
     }
     format!("{} | {}", op_frame(&e), op_scan(&e))
 }
+
+/// arbitrary schedule of appends and single scanner calls, finished by draining (C06)
+pub fn sched(ops: &[Option<Vec<u8>>]) -> (usize, usize, Vec<Vec<u8>>) {
+    let mut buf: Vec<u8> = Vec::new();
+    let mut delivered = Vec::new();
+    let mut consumed = 0usize;
+    let mut one = |buf: &mut Vec<u8>, delivered: &mut Vec<Vec<u8>>, consumed: &mut usize| -> bool {
+        let (n, fr) = {
+            let (n, f) = next_msg_frame(buf);
+            (n, f.map(|f| f.frame_data().to_vec()))
+        };
+        buf.drain(..n);
+        *consumed += n;
+        match fr {
+            Some(f) => {
+                delivered.push(f);
+                true
+            }
+            None => false,
+        }
+    };
+    for op in ops {
+        match op {
+            Some(c) => buf.extend_from_slice(c),
+            None => {
+                one(&mut buf, &mut delivered, &mut consumed);
+            }
+        }
+    }
+    while one(&mut buf, &mut delivered, &mut consumed) {}
+    (consumed, buf.len(), delivered)
+}
+
+pub fn parse_sched(s: &str) -> Option<Vec<Option<Vec<u8>>>> {
+    s.split('|')
+        .map(|w| if w == "s" { Some(None) } else if let Some(h) = w.strip_prefix('a') { unhex(h).map(Some) } else { None })
+        .collect()
+}
+
+pub fn op_sched(ops: &[Option<Vec<u8>>]) -> String {
+    let (c, b, d) = sched(ops);
+    let mut s = format!("{} {} {}", c, b, d.len());
+    for f in d {
+        s.push(' ');
+        s.push_str(&hex(&f));
+    }
+    s
+}
+
+pub fn oracle_sched(ops: &[Option<Vec<u8>>]) -> String {
+    let whole: Vec<u8> = ops.iter().flatten().flatten().copied().collect();
+    let a = sched(ops);
+    let b = feed(&[whole]);
+    if a == b { "PASS".into() } else { format!("FAIL schedule=({}, {}, {} frames) whole=({}, {}, {} frames)", a.0, a.1, a.2.len(), b.0, b.1, b.2.len()) }
+}
